@@ -559,7 +559,7 @@ func c11RuleO(w *World, r *Report, subjects []*ssa.Function, ctxs map[string]*Ct
 					if why == "" {
 						continue
 					}
-					if w.guardedByPath(blk, path, ctxs) || w.guardedByPathAtCallers(blk.Parent(), call, path, ctxs, 0) {
+					if w.guardedByPath(blk, path, ctxs) || w.guardedByPathAtCallers(blk.Parent(), call, path, ctxs, 0) || w.guardedByPathAtFrames(blk.Parent(), call, path, ctxs) {
 						continue
 					}
 					bad = append(bad, why+" at "+w.instrPos(ref))
@@ -2879,6 +2879,9 @@ func c11RuleL(w *World, r *Report, subjects []*ssa.Function, derefs map[*ssa.Fun
 				if why != "" && w.coInserted(x) {
 					why = "" // the key is the name of an element of a list that is only ever extended together with this map
 				}
+				if why != "" && w.coInsertedCarried(x) {
+					why = "" // the same for a list and a map that travel as locals, results and arguments (rules_c11_carried.go)
+				}
 				if why != "" && vlook[normMapDesc(x.X)+"|"+keyPath(x.Index)] {
 					why = "" // the same name is resolved with a diagnostic on a miss in the parse phase
 				}
@@ -3390,6 +3393,13 @@ func (w *World) kindGuardedAtParseCallers(fn *ssa.Function, base ssa.Value, pars
 				if st.K&(1<<k) == 0 && edgeDominates(bb, succ, e.Site.Block()) {
 					guarded = true
 				}
+			}
+		}
+		if !guarded {
+			// the caller is itself handed the field: the test stands where the caller is entered from (its own callers, or the
+			// wrapper closure that alone calls it), followed through the function values the caller is used as
+			if m := paramIndex(caller, arg); m >= 0 && w.kindExcludedAtEveryCall(caller, m, k) {
+				guarded = true
 			}
 		}
 		if !guarded {
